@@ -45,7 +45,7 @@ vars == <<q, closed, rxalive, sf, ws, rn, rst, rreg, rwoken, rpend, received, pu
 
 Init ==
     /\ q = <<>> /\ closed = FALSE /\ rxalive = TRUE
-    /\ sf = [f \in Futs |-> [st |-> "none", woken |-> 0, pend |-> FALSE]]
+    /\ sf = [f \in Futs |-> [st |-> "new", woken |-> 0, pend |-> FALSE]]     \* creating a send future has no effect
     /\ ws = <<>>
     /\ rn = 0 /\ rst = "none" /\ rreg = 0 /\ rwoken = [i \in 1..MaxRecv |-> 0] /\ rpend = FALSE
     /\ received = <<>> /\ pushed = <<>> /\ count = 0
@@ -100,7 +100,7 @@ PollSend(f) ==
 
 (* a suspended send future is dropped: a notification it had received is passed on to the next waiter *)
 DropSend(f) ==
-    /\ sf[f].st \in {"new", "waiting"}
+    /\ sf[f].st = "waiting"                   \* (dropping a future that was never polled has no effect)
     /\ IF sf[f].st = "waiting" /\ ~InSeq(ws, f) /\ ws # <<>>
        THEN /\ sf' = WakeS([sf EXCEPT ![f].st = "dropped", ![f].pend = FALSE], Head(ws))
             /\ ws' = Tail(ws)
@@ -120,7 +120,9 @@ NewRecv ==
 
 (* one poll of the receive future *)
 PollRecv ==
-    /\ rst \in {"new", "waiting"}
+    /\ \/ rst \in {"new", "waiting"}
+       \/ rst = "none" /\ rxalive /\ rn < MaxRecv          \* Receiver::recv() is called and its future polled at once
+    /\ rn' = IF rst = "none" THEN rn + 1 ELSE rn
     /\ IF q # <<>>
        THEN \* a message is processed, its slot freed, one suspended sender notified
             /\ q' = Tail(q)
@@ -133,19 +135,19 @@ PollRecv ==
             /\ rst' = "none"
             /\ rpend' = FALSE
             /\ UNCHANGED rreg
-            /\ Log("poll_recv", rn, "ok", sf', rwoken, received', q', count')
+            /\ Log("poll_recv", rn', "ok", sf', rwoken, received', q', count')
        ELSE IF closed
        THEN /\ rst' = "none"
             /\ rpend' = FALSE
-            /\ Log("poll_recv", rn, "err", sf, rwoken, received, q, count)
+            /\ Log("poll_recv", rn', "err", sf, rwoken, received, q, count)
             /\ UNCHANGED <<q, received, count, sf, ws, rreg>>
        ELSE \* empty: the waker is registered
             /\ rst' = "waiting"
-            /\ rreg' = rn
+            /\ rreg' = rn'
             /\ rpend' = FALSE
-            /\ Log("poll_recv", rn, "pending", sf, rwoken, received, q, count)
+            /\ Log("poll_recv", rn', "pending", sf, rwoken, received, q, count)
             /\ UNCHANGED <<q, received, count, sf, ws>>
-    /\ UNCHANGED <<closed, rxalive, rn, rwoken, pushed>>
+    /\ UNCHANGED <<closed, rxalive, rwoken, pushed>>
 
 (* the receive future is dropped before completion (its waker stays registered) *)
 DropRecv ==
@@ -167,8 +169,8 @@ DropReceiver ==
 
 Next ==
     /\ nops < MaxOps
-    /\ \/ \E f \in Futs : NewSend(f) \/ PollSend(f) \/ DropSend(f)
-       \/ NewRecv \/ PollRecv \/ DropRecv \/ DropReceiver
+    /\ \/ \E f \in Futs : PollSend(f) \/ DropSend(f)
+       \/ PollRecv \/ DropRecv \/ DropReceiver
 
 Spec == Init /\ [][Next]_vars
 
